@@ -5,6 +5,8 @@ go 1.24
 toolchain go1.24.0
 
 require (
+	github.com/aws/aws-sdk-go-v2 v1.32.8
+	github.com/aws/aws-sdk-go-v2/service/kinesis v1.32.10
 	google.golang.org/protobuf v1.36.3
 	reduction.dev/reduction v0.0.0
 	reduction.dev/reduction-protocol v0.0.5-0.20250502133230-e5852cf15cdc
@@ -13,7 +15,6 @@ require (
 require (
 	connectrpc.com/connect v1.18.1 // indirect
 	github.com/VictoriaMetrics/metrics v1.35.1 // indirect
-	github.com/aws/aws-sdk-go-v2 v1.32.8 // indirect
 	github.com/aws/aws-sdk-go-v2/aws/protocol/eventstream v1.6.7 // indirect
 	github.com/aws/aws-sdk-go-v2/config v1.28.10 // indirect
 	github.com/aws/aws-sdk-go-v2/credentials v1.17.51 // indirect
@@ -26,7 +27,6 @@ require (
 	github.com/aws/aws-sdk-go-v2/service/internal/checksum v1.4.8 // indirect
 	github.com/aws/aws-sdk-go-v2/service/internal/presigned-url v1.12.8 // indirect
 	github.com/aws/aws-sdk-go-v2/service/internal/s3shared v1.18.8 // indirect
-	github.com/aws/aws-sdk-go-v2/service/kinesis v1.32.10 // indirect
 	github.com/aws/aws-sdk-go-v2/service/s3 v1.72.2 // indirect
 	github.com/aws/aws-sdk-go-v2/service/sso v1.24.9 // indirect
 	github.com/aws/aws-sdk-go-v2/service/ssooidc v1.28.8 // indirect
